@@ -6,9 +6,10 @@ BasesT == {<<1, 1>>, <<2, 1>>, <<1, 2>>, <<5, 3>>, <<10, 1>>, <<3, 5>>, <<1, 40>
 EpsQ == {0, 12}
 EpsT == {0, 9, 15}
 CentresQ == { <<<<0, 1>>, <<0, 1>>, <<0, 1>>>>, <<<<3, 1>>, <<-5, 2>>, <<7, 3>>>>, <<<<-20, 1>>, <<11, 1>>, <<-4, 1>>>> }
-CentresT == CentresQ \cup { <<<<-1, 3>>, <<-2, 1>>, <<-9, 4>>>>, <<<<6, 1>>, <<8, 1>>, <<0, 1>>>>, <<<<0, 1>>, <<-30, 1>>, <<1, 7>>>>,
-                            <<<<-7, 2>>, <<5, 1>>, <<2, 1>>>>, <<<<4, 1>>, <<-3, 1>>, <<-12, 1>>>> }
+\* (the thorough tier multiplies bases and near-tie exponents; five centres keep the emission below 30 000 records, each of
+\* which carries the series and AGM terms - the unbounded product needed more than 38 GB in the harness)
+CentresT == CentresQ \cup { <<<<-1, 3>>, <<-2, 1>>, <<-9, 4>>>>, <<<<0, 1>>, <<-30, 1>>, <<1, 7>>>> }
 ClassesAll == {"Circle", "Ellipse", "Sphere", "Ellipsoid"}
 ScalesQ == {-7, -3, 0, 3}          \* 1e-7: absolute tolerances (1e-8) are a tenth of the shape
-ScalesT == {-7, -3, -2, -1, 0, 1, 2, 3}
+ScalesT == {-7, -3, -1, 0, 2, 3}
 =============================================================================
